@@ -320,7 +320,37 @@ func c16Run(b *core.B) {
 			}
 		}
 		var wantTicks []string
+		// a call of the same function nested in an argument (its ticks come first)
+		nestedOK := true
+		for j := 0; j < g.np; j++ {
+			if g.np >= 1 && r.Chance(1, 6) {
+				inner := make([]interface{}, g.np)
+				innerSrc := make([]string, g.np)
+				for q := range inner {
+					inner[q] = g.consts[r.Intn(len(g.consts))]
+					innerSrc[q] = (&fExpr{kind: "const", c: inner[q]}).src(nil)
+				}
+				iv, iret, iok := fExec(body, inner, &wantTicks)
+				if !iret || !iok {
+					nestedOK = false
+					break
+				}
+				args[j] = iv
+				argSrc[j] = "f(" + strings.Join(innerSrc, ", ") + ")"
+				// recorded arguments to the left of j were evaluated before the nested call ran
+				break
+			}
+		}
 		want, returned, ok := fExec(body, args, &wantTicks)
+		if !nestedOK {
+			ok = false
+		}
+		wantVals = wantVals[:0]
+		for j := range argSrc {
+			if strings.HasPrefix(argSrc[j], "val(") {
+				wantVals = append(wantVals, fmt.Sprintf("a%d", j))
+			}
+		}
 		def := "<% let f = fn(" + strings.Join(pn, ", ") + ") {\n" + fPrint(body, pn, "  ") + "} %>"
 		call := "f(" + strings.Join(argSrc, ", ") + ")"
 		// how the result is used
@@ -415,6 +445,12 @@ func c16Run(b *core.B) {
 		{"call-through-parameter", `<% let ap = fn(g, a, b) { return g(a, b) } %><% let cat = fn(x, y) { return x + y } %><%= ap(cat, "a", "b") %>`, "ab"},
 		{"shadowed-names", `<% let a = "A" %><% let b = "B" %><% let f = fn(a, b) { return a + b } %><%= f(b, a) %>|<%= a %><%= b %>`, "BA|AB"},
 		{"go-helper-arg-fn", `<% let f = fn(a) { return a } %><%= ident(f("v")) %>`, "v"},
+		{"two-functions-through-one-parameter", `<% let ap = fn(g, x) { return g(x) } %><% let inc = fn(n) { return n + 1 } %><% let dbl = fn(n) { return n * 2 } %><%= ap(inc, 10) %>|<%= ap(dbl, 10) %>|<%= ap(inc, 1) %>`, "11|20|2"},
+		{"two-functions-through-one-parameter-in-loop", `<% let ap = fn(g, x) { return g(x) } %><% let inc = fn(n) { return n + 1 } %><% let dbl = fn(n) { return n * 2 } %><%= for (h) in [inc, dbl, inc] { %><%= ap(h, 5) %>,<% } %>`, "6,10,6,"},
+		{"same-function-nested-in-second-argument", `<% let pick = fn(a, b) { if (a > b) { return a } return b } %><%= pick(9, pick(2, 3)) %>|<%= pick(pick(2, 3), 9) %>|<%= pick(1, pick(2, pick(7, 3))) %>`, "9|9|7"},
+		{"same-function-nested-keeps-first-argument", `<% let first = fn(a, b) { return a } %><%= first("x", first("y", "z")) %>`, "x"},
+		{"rebinding-a-function-name", `<% let f = fn(n) { return n + 1 } %><%= f(1) %><% let f = fn(n) { return n + 100 } %>|<%= f(1) %>`, "2|101"},
+		{"function-values-in-a-hash-called-in-turn", `<% let a = fn(n) { return "a" + n } %><% let b = fn(n) { return "b" + n } %><% let h = {x: a, y: b} %><% let g = h["x"] %><%= g(1) %><% g = h["y"] %><%= g(2) %>`, "a1b2"},
 	}
 	for d := 0; d <= 12; d++ {
 		fact := 1
